@@ -1,2 +1,249 @@
-// harness site: src/catch/difficulty/gradual.rs
+// harness site: src/catch/difficulty/gradual.rs — S1 (state-level inductive step), DESIGN.md §4a.
+//
+// Properties: C15 (iterator protocol), C02 (gradual == one-shot on the prefix: object counts and
+// processed difficulty objects), C14 (fruit/droplet/tiny-droplet counts), C05.
+//
+// Witness: N palpable objects (fruit / droplet, tiny droplets recorded in front of each), cursor
+// p, one call. Under Kani the struct is a literal in cursor state p (attrs = sum of the first p
+// count deltas) with `Movement::process` replaced by a recording stub. Natively the witness is
+// replayed through the public API when it is expressible as a map (fruits only: circles), and
+// otherwise on the same literal with the real skill.
 #![allow(dead_code, unused_imports, clippy::all, clippy::pedantic)]
+
+use super::*;
+use crate::catch::{object::palpable::PalpableObject, Catch};
+use crate::model::hit_object::{HitObject, HitObjectKind};
+use crate::verif_harness::common::{ghost_probe, verif_replay_table};
+use rosu_map::util::Pos;
+
+static mut LOG: [usize; 8] = [0; 8];
+static mut LOG_LEN: usize = 0;
+
+fn rec_process(_s: &mut Movement, curr: &CatchDifficultyObject, _o: &[CatchDifficultyObject]) {
+    unsafe {
+        if LOG_LEN < 8 {
+            LOG[LOG_LEN] = curr.idx;
+        }
+        LOG_LEN += 1;
+    }
+}
+fn zero_value(_s: &Movement) -> f64 {
+    0.0
+}
+fn log_len() -> usize {
+    unsafe { LOG_LEN }
+}
+fn log_at(i: usize) -> usize {
+    unsafe { LOG[i] }
+}
+
+fn new_gradual_small() -> ObjectCountBuilder {
+    // capacity-only stub (8 instead of 512 entries), see catch_attrs.rs
+    let mut b = ObjectCountBuilder::new_regular(0);
+    b = ObjectCountBuilder::Gradual {
+        count: GradualObjectCount::default(),
+        all: Vec::with_capacity(8),
+    };
+    b
+}
+
+#[derive(Clone, Copy)]
+struct Witness<const N: usize> {
+    is_fruit: [bool; N],
+    tiny: [u8; N],
+    p: usize,
+    call: u8,
+    n: usize,
+}
+
+fn any_witness<const N: usize>() -> Witness<N> {
+    let w = Witness::<N> {
+        is_fruit: kani::any(),
+        tiny: kani::any(),
+        p: kani::any(),
+        call: kani::any(),
+        n: kani::any(),
+    };
+    for i in 0..N {
+        kani::assume(w.tiny[i] <= 3);
+    }
+    kani::assume(w.p <= N && w.call < 3);
+    w
+}
+
+struct Model {
+    fruits: [u32; 5],
+    droplets: [u32; 5],
+    tiny: [u32; 5],
+}
+
+fn model_of<const N: usize>(w: &Witness<N>) -> Model {
+    let mut m = Model { fruits: [0; 5], droplets: [0; 5], tiny: [0; 5] };
+    for i in 0..N {
+        m.fruits[i + 1] = m.fruits[i] + u32::from(w.is_fruit[i]);
+        m.droplets[i + 1] = m.droplets[i] + u32::from(!w.is_fruit[i]);
+        m.tiny[i + 1] = m.tiny[i] + u32::from(w.tiny[i]);
+    }
+    m
+}
+
+fn representable_as_map<const N: usize>(w: &Witness<N>) -> bool {
+    let mut ok = true;
+    for i in 0..N {
+        ok &= w.is_fruit[i] && w.tiny[i] == 0;
+    }
+    ok
+}
+
+fn map_of<const N: usize>() -> Beatmap {
+    let mut map = Beatmap { mode: GameMode::Catch, ..Beatmap::default() };
+    for i in 0..N {
+        map.hit_objects.push(HitObject {
+            pos: Pos::new(100.0 + 50.0 * (i as f32), 0.0),
+            start_time: 500.0 * (i as f64),
+            kind: HitObjectKind::Circle,
+        });
+        map.hit_sounds.push(Default::default());
+    }
+    map
+}
+
+const SKIP_NTH_BEYOND: u8 = 1;
+
+fn check_step<const N: usize>(g: &mut CatchGradualDifficulty, w: &Witness<N>, m: &Model, map: Option<&Beatmap>, skip: u8) {
+    let p = w.p;
+    let remaining = N - p;
+    let ghost = ghost_probe();
+    let log0 = log_len();
+
+    assert!(g.len() == remaining, "C15 catch: len() equals the number of values still to come");
+    let (lo, hi) = g.size_hint();
+    assert!(lo == g.len() && hi == Some(lo), "C15 catch: size_hint() agrees with len()");
+    if w.call == 2 {
+        return;
+    }
+    let n = if w.call == 0 { 0 } else { w.n };
+    let res = if w.call == 0 { g.next() } else { g.nth(n) };
+
+    if n < remaining {
+        let k = p + n + 1;
+        assert!(res.is_some(), "C15 catch: a value is produced while enough values remain");
+        let a = res.unwrap();
+        assert!(a.n_fruits == m.fruits[k], "C02 catch: n_fruits counts the fruits of the prefix");
+        assert!(a.n_droplets == m.droplets[k], "C02 catch: n_droplets counts the droplets of the prefix");
+        assert!(a.n_tiny_droplets == m.tiny[k], "C02 catch: n_tiny_droplets counts the tiny droplets of the prefix");
+        assert!((a.n_fruits + a.n_droplets) as usize == k, "C14 catch: fruits + droplets == objects passed");
+        assert!(g.idx == k, "C15 catch: cursor advanced by n + 1");
+        assert!(g.len() == N - k, "C15 catch: len() after the call");
+        if ghost {
+            let first = if p == 0 { 0 } else { p - 1 };
+            let expect = (k - 1) - first;
+            assert!(log_len() - log0 == expect, "C02 catch: number of processed difficulty objects");
+            let mut j = 0;
+            while j < expect {
+                assert!(log_at(log0 + j) == first + j, "C02 catch: processed objects in order");
+                j += 1;
+            }
+        } else if let Some(map) = map {
+            let one = Difficulty::new().passed_objects(k as u32).calculate_for_mode::<Catch>(map).unwrap();
+            assert!(one == a, "C02 catch: value equals one-shot passed_objects(i)");
+        }
+    } else {
+        if !(skip & SKIP_NTH_BEYOND != 0 && remaining > 0) {
+            assert!(res.is_none(), "C15 catch: nth(n) with fewer than n+1 values left returns None");
+        }
+        assert!(g.next().is_none(), "C15 catch: exhausted calculator stays exhausted");
+        assert!(g.len() == 0, "C15 catch: len() is 0 once exhausted");
+    }
+}
+
+fn literal_state<const N: usize, const M: usize>(w: &Witness<N>, m: &Model) -> CatchGradualDifficulty {
+    let mut b = ObjectCountBuilder::new_gradual();
+    for i in 0..N {
+        b.record_tiny_droplets(u32::from(w.tiny[i]));
+        if w.is_fruit[i] {
+            b.record_fruit();
+        } else {
+            b.record_droplet();
+        }
+    }
+    let count = b.into_gradual();
+    let mut diff = Vec::with_capacity(M);
+    for i in 0..M {
+        let last = PalpableObject::new(100.0 + 50.0 * (i as f32), 0.0, 500.0 * (i as f64));
+        let curr = PalpableObject::new(100.0 + 50.0 * ((i + 1) as f32), 0.0, 500.0 * ((i + 1) as f64));
+        diff.push(CatchDifficultyObject::new(&curr, &last, 1.0, 1.0, i));
+    }
+    let attrs = CatchDifficultyAttributes {
+        n_fruits: m.fruits[w.p],
+        n_droplets: m.droplets[w.p],
+        n_tiny_droplets: m.tiny[w.p],
+        ..Default::default()
+    };
+    CatchGradualDifficulty {
+        idx: w.p,
+        difficulty: Difficulty::new(),
+        attrs,
+        count,
+        diff_objects: diff.into_boxed_slice(),
+        movement: Movement::new(50.0, 1.0),
+    }
+}
+
+fn restrict_to_class<const N: usize>(w: &Witness<N>, class: u8) {
+    if class == 1 {
+        kani::assume(w.call == 1 && w.p < N && w.n >= N - w.p);
+    }
+}
+
+fn s1_step<const N: usize, const M: usize>(skip: u8, class: u8) {
+    let w = any_witness::<N>();
+    restrict_to_class(&w, class);
+    let m = model_of(&w);
+
+    if ghost_probe() || !representable_as_map(&w) {
+        let mut g = literal_state::<N, M>(&w, &m);
+        check_step(&mut g, &w, &m, None, skip);
+        let kc = class != 0;
+        kani::cover!(kc || N < 2 || (w.call == 1 && w.n > 0 && w.n < N - w.p), "nth(n>0) inside the map");
+        kani::cover!(kc || (w.call == 1 && w.n >= N - w.p), "nth beyond the end");
+        kani::cover!(kc || N == 0 || (w.call == 0 && w.p < N && !w.is_fruit[w.p] && w.tiny[w.p] > 0), "next onto a droplet with tiny droplets");
+        core::mem::forget(g);
+    } else {
+        let map = map_of::<N>();
+        let mut g = CatchGradualDifficulty::new(Difficulty::new(), &map).unwrap();
+        for _ in 0..w.p {
+            let _ = g.next();
+        }
+        check_step(&mut g, &w, &m, Some(&map), skip);
+    }
+}
+
+macro_rules! s1_proof {
+    ($name:ident, $n:literal, $m:literal, $unwind:literal) => {
+        s1_proof!($name, $n, $m, $unwind, SKIP_NTH_BEYOND, 0);
+    };
+    ($name:ident, $n:literal, $m:literal, $unwind:literal, $skip:expr, $class:literal) => {
+        #[kani::proof]
+        #[kani::unwind($unwind)]
+        #[kani::stub(<Movement as StrainSkill>::process, rec_process)]
+        #[kani::stub(<Movement as StrainSkill>::cloned_difficulty_value, zero_value)]
+        #[kani::stub(crate::catch::attributes::ObjectCountBuilder::new_gradual, new_gradual_small)]
+        #[kani::stub(crate::verif_harness::common::ghost_probe, crate::verif_harness::common::ghost_probe_on)]
+        pub fn $name() {
+            s1_step::<$n, $m>($skip, $class);
+        }
+    };
+}
+
+s1_proof!(s1_catch_step_n0, 0, 0, 6);
+s1_proof!(s1_catch_step_n1, 1, 0, 6);
+s1_proof!(s1_catch_step_n2, 2, 1, 6);
+s1_proof!(s1_catch_step_n3, 3, 2, 7);
+s1_proof!(s1_catch_step_n4, 4, 3, 8);
+s1_proof!(kf_catch_nth_beyond_end, 2, 1, 6, 0, 1);
+
+verif_replay_table!(verif_replay_catch_gradual;
+    kf_catch_nth_beyond_end,
+    s1_catch_step_n0, s1_catch_step_n1, s1_catch_step_n2, s1_catch_step_n3, s1_catch_step_n4,
+);
